@@ -44,7 +44,7 @@ func basePort() int { return servermc.FreeBase() }
 func runC15(tier string) int {
 	quick := tier == "quick"
 	col := ev.NewCollector("C15", tier, "exploration")
-	dl := ev.NewDeadline(ev.EnvDur("VERIF_BUDGET", map[bool]time.Duration{true: 150 * time.Second, false: 20 * time.Minute}[quick]))
+	dl := ev.NewDeadline(ev.EnvDur("VERIF_BUDGET", map[bool]time.Duration{true: 300 * time.Second, false: 20 * time.Minute}[quick]))
 	maxLen := 4
 	if quick {
 		maxLen = 3
